@@ -89,13 +89,16 @@ def probe_matrix(rng, ndim, kind=None):
     return A
 
 
-def make_probe(rng, shape, with_shape=True, kind=None, extra_world=False):
+def make_probe(rng, shape, with_shape=True, kind=None, extra_world=False, drop_world=False):
     ndim = len(shape)
     A = probe_matrix(rng, ndim, kind)
     b = [rng.randint(-8, 8) * 4 for _ in range(ndim)]
     if extra_world and ndim >= 1:
         row = np.zeros(ndim); row[rng.randrange(ndim)] = 2
         A = np.vstack([A, row]); b = b + [100]
+    elif drop_world and ndim >= 2:
+        # fewer world than pixel axes: one world value that depends on two pixel axes
+        A = A[:-1].copy(); A[-1, -1] = 1; b = b[:-1]
     return ProbeWCS(A, b, shape=tuple(shape) if with_shape else None)
 
 
